@@ -688,34 +688,38 @@ static long nr_cpus_mask = NR_CPUS_MASK_UNINITIALIZED;
 static long split_count_mask = -1;
 static int split_count_order = -1;
 
-static void ht_init_nr_cpus_mask(void)
+static long ht_compute_nr_cpus_mask(void)
 {
 	long maxcpus;
 
 	maxcpus = get_possible_cpus_array_len();
-	if (maxcpus <= 0) {
-		nr_cpus_mask = NR_CPUS_MASK_INIT_FAILED;
-		return;
-	}
+	if (maxcpus <= 0)
+		return NR_CPUS_MASK_INIT_FAILED;
 	/*
 	 * round up number of CPUs to next power of two, so we
 	 * can use & for modulo.
 	 */
 	maxcpus = 1UL << cds_lfht_get_count_order_ulong(maxcpus);
-	nr_cpus_mask = maxcpus - 1;
+	return maxcpus - 1;
 }
 
 static
 void alloc_split_items_count(struct cds_lfht *ht)
 {
-	if (nr_cpus_mask == NR_CPUS_MASK_UNINITIALIZED)	{
-		ht_init_nr_cpus_mask();
-		if (nr_cpus_mask < 0)
-			split_count_mask = DEFAULT_SPLIT_COUNT_MASK;
-		else
-			split_count_mask = nr_cpus_mask;
-		split_count_order =
-			cds_lfht_get_count_order_ulong(split_count_mask + 1);
+	/*
+	 * Tables can be created concurrently (no lock, which a fork()
+	 * could leave held in the child): every initializing thread
+	 * computes the same values, and nr_cpus_mask is published
+	 * only after the split count mask and order derived from it.
+	 */
+	if (uatomic_load(&nr_cpus_mask, CMM_ACQUIRE) == NR_CPUS_MASK_UNINITIALIZED) {
+		long mask = ht_compute_nr_cpus_mask();
+		long count_mask = mask < 0 ? DEFAULT_SPLIT_COUNT_MASK : mask;
+
+		uatomic_store(&split_count_mask, count_mask);
+		uatomic_store(&split_count_order,
+			cds_lfht_get_count_order_ulong(count_mask + 1));
+		uatomic_store(&nr_cpus_mask, mask, CMM_RELEASE);
 	}
 
 	urcu_posix_assert(split_count_mask >= 0);
